@@ -391,6 +391,7 @@ pub fn setup(sched: &'static Sched, scenario: &Scenario) -> Arc<Ctx> {
         let (ctx2, ops) = (Arc::clone(&ctx), thread.ops.clone());
         sched.start_thread(thread.name.clone(), Box::new(move || {
             let mut slots = Slots::default();
+            ctx2.sched.yield_now("begin");
             for op in ops.iter() { exec_op(&ctx2, op, &mut slots); }
             // Futures that were never consumed are dropped when the thread ends
             std::mem::drop(slots);
